@@ -603,7 +603,7 @@ func genConfig(r *sim.Rand, tier string) sim.Config {
 	}
 	// w_par stays 0: the in-bubble concurrent step is not used (a deadlocked signer cannot be abandoned
 	// inside a synctest bubble); concurrency is explored by the separate par runs above (par.go).
-	if tier == "thorough" {
+	if tier == "thorough" && c["par"] != 1 { // concurrent runs stay short: every deadlock leaks two goroutines
 		c["steps"] = int64(15 + r.Intn(120))
 	}
 	return c
